@@ -260,7 +260,7 @@ def context_cases(rng, thorough):
     import hippolyzer.lib.base.serialization as se
     from hippolyzer.lib.base.message.message import Block
     tmpls = {t.name: (i, t) for i, t in enumerate(c12.templates())}
-    cases, seen_regs = [], []
+    cases, seen_regs, n_falsy = [], [], [0]
     for (mname, bname, vname), ser in se.SUBFIELD_SERIALIZERS.items():
         if mname not in tmpls:
             continue
@@ -299,13 +299,42 @@ def context_cases(rng, thorough):
                 ctxs = [{}]
                 for field in sorted(asked)[:2]:
                     ctxs = [dict(c, **{field: v}) for c in ctxs for v in _sibling_domain(se, tmpl, bname, field)][:48]
+        switched = bool(ctxs)
         if not ctxs:
-            continue
-        seen_regs.append("%s.%s.%s" % (mname, bname, vname))
+            if not is_bytes:
+                continue
+            ctxs = [{}]         # not context-switched: only the class "non-canonical raw encodings of falsy values" below
+        else:
+            seen_regs.append("%s.%s.%s" % (mname, bname, vname))
         for ctx in ctxs:
+            falsy = []
+            if is_bytes:
+                # raw payloads that decode to a FALSY value (None, empty container, 0, "") without being what the serializer
+                # writes for that value: length-prefixed empty sections, lone terminators, zero padding, explicit zero counts
+                for raw in [bytes(n) for n in range(0, 17)] + [b"\x00" * n + b"\x00" for n in (19, 23, 31, 63)]:
+                    blk = fresh_block(ctx)
+                    st, pod = impl_call(ser.deserialize, blk, raw, pod=True)
+                    if st != "ok" or pod is se.UNSERIALIZABLE:
+                        continue
+                    try:
+                        is_falsy = not pod
+                    except Exception:  # noqa
+                        continue
+                    if is_falsy:
+                        st, back = impl_call(ser.serialize, blk, pod)
+                        if st != "ok" or bytes(back) != raw:
+                            falsy.append(raw)
+                falsy = falsy[:6]
+                n_falsy[0] += len(falsy)
+            if not switched:
+                maxlen = tvar.size if c12.tyname(tvar) == "Fixed" else (255 if tvar.size == 1 else 4000)
+                for p_ in falsy:
+                    if len(p_) <= maxlen and (c12.tyname(tvar) != "Fixed" or len(p_) == tvar.size):
+                        cases.append((ti, ("ctx", bname, vname, ctx, p_)))
+                continue
             if is_bytes:
                 maxlen = tvar.size if c12.tyname(tvar) == "Fixed" else (255 if tvar.size == 1 else 4000)
-                payloads = list(_CTX_PAYLOADS) + [bytes(rng.randrange(256) for _ in range(rng.choice([1, 3, 8, 20])))]
+                payloads = list(_CTX_PAYLOADS) + falsy + [bytes(rng.randrange(256) for _ in range(rng.choice([1, 3, 8, 20])))]
                 # payloads the selected sub-template itself produces: whatever it reads, written back by it
                 own = []
                 for raw in payloads + [bytes(n) + tail for tail in (b"Ab/1\x00", b"") for n in range(0, 81)]:
@@ -333,6 +362,7 @@ def context_cases(rng, thorough):
                 payloads = [v for v in dict.fromkeys([0, 1, 2, 15, 16, 127, 255, lo, hi]) if lo <= v <= hi]
             for p_ in payloads:
                 cases.append((ti, ("ctx", bname, vname, ctx, p_)))
+    context_cases.falsy_noncanonical = n_falsy[0]
     return cases, seen_regs
 
 
@@ -587,6 +617,9 @@ def _texts(chk: Check, per_template, n_fuzz):
         items.append((len(items), ti, chk.rng.getrandbits(48), style, 0))
     chk.cov["context_switched_serializers"] = ctx_regs
     chk.cov["context_switched_cases"] = len(ctx_cases)
+    chk.cov["falsy_noncanonical_payloads"] = context_cases.falsy_noncanonical
+    if context_cases.falsy_noncanonical < 1:
+        raise common.MachineryError("reflection found only %d non-canonical encodings of falsy subfield values" % context_cases.falsy_noncanonical)
     if len(ctx_regs) < 5:
         raise common.MachineryError("reflection found only %d context-switched subfield serializers: %r" % (len(ctx_regs), ctx_regs))
     _JOBS = common.chunked(items, common.NCPU * 2)
